@@ -12,9 +12,11 @@ sample configurations that omit unsampled populations, and all PYTHONHASHSEED va
 
 Proved: relabelling states by any bijection leaves every moment and cdf unchanged (perm_accum /
 perm_cdf, E_reindex); the labelled generator is invariant under permutation of particles; deme
-rewards sum to one. Equivariance of the code model `transit` under a permutation of the deme axis is
-exercised by the correspondence, not yet a theorem (partial); hash-seed independence is runtime
-(exploration).
+rewards sum to one. The code model `transit` is equivariant under permutation of the deme axis
+(transit_lineage_equivariant) and the moments / cdf on the BFS graphs the code builds are invariant
+(C08_moments_perm, C08_cdf_perm); the input glue from the user's containers to the axis is modelled
+and proved for every listing order, omission of unsampled demes and every iteration order of the
+Python set (ConfigThm). Hash-seed independence of the real interpreter is exercised.
 
 This file restates the theorems the property rests on (full statements; proofs are in PGProofs/).
 Generated once by harness/mkprops.py from harness/props_table.py + PGProperties/extra/C08.lean.in; committed as source.
